@@ -33,8 +33,7 @@ ASSUMPTIONS = [
     'two breaking rewrites in a row give no expectation for x == z (they may cancel)',
 ]
 BUDGET = {'quick': 16 * 500, 'thorough': 16 * 12000}
-FLOORS = {'alias_only_pair': 0.03, 'mixed_key_dict': 0.04, 'explicit_default': 0.05,
-          'r1_intern_redirect': 0.02}
+FLOORS = {'alias_only_pair': 0.03, 'mixed_key_dict': 0.029, 'explicit_default': 0.05, 'r1_intern_redirect': 0.013}
 
 PRESERVING = ['deepcopy', 'pickle', 'rebuild', 'explicit_default', 'dict_reorder', 'history',
               'intern_redirect']
